@@ -560,7 +560,7 @@ func pipeRun(args []string) error {
 	subcmds := fs.String("subcmds", "", "'|'-separated extra sub-commands")
 	prebuild := fs.Bool("prebuild", true, "")
 	validate := fs.Bool("validate", true, "")
-	timeout := fs.Int("timeout", 60, "seconds per CLI run")
+	timeout := fs.Int("timeout", 150, "seconds per CLI run")
 	fs.Parse(args)
 	cases, err := loadCases(*casesPath)
 	if err != nil {
